@@ -257,6 +257,13 @@ def checkStep (ev : StepEv) : List Verdict :=
     [ check "sgr-decode-matches-written-parameters" written.isSome (ops == refOps),
       check "sgr-pen-is-reference-pen" true (Pen.obs nt.pen == Pen.obs (penRef pt.pen refOps)),
       check "sgr-touches-only-the-pen" true (nt == afterCall ev.kind { pt with pen := nt.pen }) ]
+  | [.decset ms] =>
+    -- entering the alternate screen blanks it: every cell of the new screen carries the current pen
+    if pt.activeBufferType == .primary && nt.activeBufferType == .alternate
+        && ms.all (fun m => m == .altScreenBuffer || m == .saveCursorAltScreenBuffer) then
+      [ check "alternate-screen-blanked-with-current-pen" true
+          (nt.buffer.view.all fun l => l.cells.all fun c => c.pen == pt.pen && c.ch == 0x20) ]
+    else []
   | [f] =>
     if writesWithPen f then
       [ check "no-foreign-pen-in-view" true (noForeignCells pt.pen pt.buffer.view nt.buffer.view) ]
